@@ -7,7 +7,8 @@ var vPresets = [3]uint64{0, 1, ^uint64(0)}
 // vF returns the i-th scalar of a value under construction: fully symbolic when
 // i is the chosen field, a preset otherwise.
 type vSweep struct {
-	which, preset, n int
+	which, preset, n         int
+	emptyChosen, emptyNonNil bool
 }
 
 func vNewSweep(nfields int) *vSweep {
@@ -36,6 +37,15 @@ func (s *vSweep) str() string {
 func (s *vSweep) bytes(name string) []byte {
 	switch s.preset {
 	case 0:
+		// absent, or present and empty (a non-nil zero-length slice is encoded
+		// as a zero-length field by the hand-written codecs)
+		if !s.emptyChosen {
+			s.emptyChosen = true
+			s.emptyNonNil = vBool("emptyButNotNil")
+		}
+		if s.emptyNonNil {
+			return []byte{}
+		}
 		return nil
 	case 1:
 		return []byte{vU8(name)}
